@@ -118,7 +118,9 @@ pub fn run_session(ra: &mut Replica<'_>, rb: &mut Replica<'_>, max_msgs: usize) 
     let mut turn_b = true;
     loop {
         if transcript.len() > max_msgs {
-            anyhow::bail!("session did not terminate within {max_msgs} messages");
+            // not terminated: the truncated transcript is reported as it is; its length alone
+            // exceeds the bound the specification oracle demands
+            break;
         }
         let reply = if turn_b {
             rt.block_on(rb.sync_process_message(msg, [1u8; 32], &mut oc_b))?
@@ -200,8 +202,9 @@ pub fn run(seed: u64, n: usize, out: &Path, thorough: bool, id: &str, module: &s
                 Ok((rec, second))
             }));
             match r {
-                Ok(r) => r?,
-                Err(_) => {
+                Ok(Ok(r)) => r,
+                // an error or a panic inside a session: reported with the inputs, never a harness failure
+                Ok(Err(_)) | Err(_) => {
                     panicked = true;
                     let empty = || SessionRecord { init: "[]".into(), transcript: vec![], jtranscript: vec![], oc_a: Default::default(), oc_b: Default::default(), fp_ok: true, values: 0 };
                     (empty(), empty())
